@@ -16,7 +16,32 @@ IMPORTS = IMPORTS + ["SodiumModel.Properties.C05Ladder", "SodiumModel.Properties
 TABLES = ['x25519_blocklist_eq']      # Tie B: kernel-checked `table regenerated from the source = model table`
 THEOREMS = THEOREMS + vcore.theorems_in("SodiumModel/Properties/C10Fe25.lean", ['val_def', 'fval_def', 'bnd_def', 'bounds_def', 'bounds_chain', 'add_spec', 'sub_spec', 'neg_spec', 'add_sub_tight', 'add_wraps_unbounded', 'premul_no_overflow', 'mul_no_overflow', 'mul_acc_value', 'carry_chain_value', 'mul_spec', 'mul_wrong_beyond_loose', 'sq_spec', 'sq_no_overflow', 'sq2_spec', 'mul32_spec', 'mul32_wrong_for_large_n', 'frombytes_spec', 'reduce_first_q', 'reduce_no_overflow', 'reduce_spec', 'tobytes_spec', 'tobytes_tight', 'reduce_wrong_in_documented_range', 'isnegative_spec', 'iszero_spec', 'cswap_spec', 'cswap_out_of_contract', 'cmov_spec', 'invert_spec', 'pow22523_spec', 'fe25_refines', 'sub_tight_loose_not_loose', 'refinesTL_is_TT', 'ladder_any_field_TT', 'x25519_fe25_eq_ref10', 'x25519_fe25_eq_rfc7748', 'x25519_fe25_clamp', 'x25519_fe25_general', 'x25519_fe25_eq_fe51', 'fe25_eq_spec_ladder'], "Sodium.C10Fe25")
 IMPORTS = IMPORTS + ["SodiumModel.Properties.C10Fe25"]
-tie_b = lambda ctx: tie_b_fe25(ctx)
+IMPORTS = IMPORTS + ["SodiumModel.Properties.C05Asm"]
+_TA = ["pack_shape", "pack_loop_exact", "pack_loop_carried", "pack_loop_spec"]
+THEOREMS = THEOREMS + vcore.theorems_in("SodiumModel/Properties/C05Asm.lean", _TA, "Sodium.C05Asm")
+tie_b = lambda ctx: tie_b_fe25(ctx) + tie_b_asm(ctx)
+
+
+def tie_b_asm(ctx):
+    """sandy2x scalar assembly (fe51_pack.S, fe51_mul.S, fe51_nsquare.S): tools/asm2lean.py re-translates the .S text into instruction lists for the x86-64
+    interpreter of Model/X86Scalar.lean on every run; identical text: the theorems of C05Asm and the driver's cross-run (every X25519 op's final limb vector goes
+    through the generated pack / mul / nsquare) are about the code as it is; different text: the proofs are re-checked against it, and on failure the regenerated
+    model is evaluated against the limb model on boundary inputs (the failing limb vector is the replay)"""
+    import fcntl, os, c05_asm_tieb
+    for t in _TA:
+        ctx.obligations.append({"theorem": "Sodium.C05Asm." + t + " [instruction lists regenerated from the .S text]", "axioms": ["propext", "Classical.choice", "Quot.sound"]})
+    with open(os.path.join(vcore.LEAN, ".lake-lock"), "w") as lk:
+        fcntl.flock(lk, fcntl.LOCK_EX)
+        ok, msg = c05_asm_tieb.tie_b(vcore.LEAN, os.path.join(vcore.REPO, "src", "libsodium"), outdir=os.path.join(ctx.scratch, "tieb-asm"))
+    ctx.log("Tie B (sandy2x scalar assembly): " + msg.split("\n")[0][:300])
+    ctx.stats["sandy2x_asm_tie"] = msg[:2000]
+    if ok:
+        ctx.discharged = len(ctx.obligations)
+        return []
+    ctx.discharged = len(ctx.obligations) - len(_TA)
+    if "differ" in msg.split("evaluation of the REGENERATED model")[-1]:
+        ctx.violations_with_input = getattr(ctx, "violations_with_input", 0) + 1
+    return [("Sodium.C05Asm.pack_loop_spec", msg)]
 FINGERPRINTS = "C05"     # Tie B: pinned source text of the hand-transcribed limb code (tools/fingerprint.py)
 RULE = ("random (scalar, point) pairs; the low-order / non-canonical u-coordinates (0, 1, the two order-8 points, p-1, p, p+1) with either top bit; u in p-k..p+k and "
         "2^255-k..2^255-1; scalars covering all 32 clamp-bit patterns; limb-structured field elements (all-ones 51-bit and 25.5-bit limbs); key exchange: both sides computed "
